@@ -23,6 +23,12 @@ KindC1q == ("a" :> "ra" @@ "s" :> "rs")
 OnC1q == ("a" :> "L" @@ "s" :> "L")
 ProgC1q == ("c1" :> <<A("a")>> @@ "c2" :> <<S("s")>>)
 
+\* ---- C1b: dispatch_sync directly on the bottom racing an async on the leaf ----
+ItemsC1b == {"a", "sb"}
+KindC1b == ("a" :> "ra" @@ "sb" :> "rs")
+OnC1b == ("a" :> "L" @@ "sb" :> "B")
+ProgC1b == ("c1" :> <<A("a")>> @@ "c2" :> <<S("sb")>>)
+
 \* ---- C2: fan-in: serial L1, L2 -> serial B ; asyncs on both leaves and on B ----
 QueuesC2 == {"L1", "L2", "B"}
 TargetC2 == ("L1" :> "B" @@ "L2" :> "B" @@ "B" :> ROOT)
